@@ -262,6 +262,10 @@ pub fn ctx_spec() -> CtxSpec {
     // a receiver parameter that is not the first parameter
     spec.fns.push(("pt".into(), FnSpec::Host(vec!["pos-value".into(), "this-value".into()], Body::Const(Value::Int(5)))));
     spec.fns.push(("ptp".into(), FnSpec::Host(vec!["pos-value".into(), "this-value".into(), "pos-value".into()], Body::Const(Value::Int(6)))));
+    {
+        let leaf = |k: &str, v: Value| -> Value { Value::Map(cel_interpreter::objects::Map { map: std::sync::Arc::new(std::collections::HashMap::from([(cel_interpreter::objects::Key::String(std::sync::Arc::new(k.to_string())), v)])) }) };
+        spec.vars.push(("mm".into(), leaf("a", leaf("b", leaf("c", Value::Int(1))))));
+    }
     // a receiver parameter combined with the all-arguments extractor (see known finding D27)
     spec.fns.push(("ta".into(), FnSpec::Host(vec!["this-value".into(), "args".into()], Body::Const(Value::Int(7)))));
     spec
@@ -442,6 +446,19 @@ pub fn generate(tier: Tier, rng: &mut Rng) -> Vec<Case> {
             push(format!("{a} {op} {b}"), None, usize::MAX, vec!["unordered-operands"], &mut out);
             push(format!("[t(0), t(5)].exists(x, {a} {op} h2(x, {b}))"), None, usize::MAX, vec!["unordered-operands"], &mut out);
         }
+    }
+    // a logged operand beside containers written as literals of scalars (the shape a parser or
+    // evaluator may special-case), field paths below a logged root (every step of the path is
+    // evaluated once, also under has()), and macros that must visit every element
+    for src in [
+        "t(5) in [1, 2, 3]", "t(2) in [1, 2, 3]", "t(1) in [1]", "t(1) in [1, 2, 3, 4]", "t(9) in [1, 2, 3, 4, 5, 6]", "t('a') in ['a', 'b']", "[7, 8].map(x, t(x) in [1, 2, 3])", "t(1) in {1: 2, 3: 4}", "t(2) in [1, 2.0, 2u]",
+        "!(t(1) in [1, 2])", "t(1) in []", "t(1) in [t(2)]", "t(true) in [true, false]", "t(1) + 0 in [1, 2]", "(t(1) in [1, 2]) && (t(2) in [3, 4])", "t(1) == 1 || t(1) == 2 || t(1) == 3",
+        "has(t(mm).a.b.c)", "has(t(mm).a.b)", "has(t(mm).a)", "has(t(t(mm).a).b.c)", "has(t(mm).a.x.c)", "t(mm).a.b.c", "has(t(mm).a.b.c) && has(t(mm).a.b)", "[mm].map(v, has(t(v).a.b.c))", "has({'k': t(1)}.k)", "has(t(mm).x)",
+        "t(mm).a.b.c + t(mm).a.b.c", "t(mm)['a']['b']['c']", "has(t(mm).a.b.c.d)",
+        "[1, 2, 3, 4, 0, 5].exists_one(x, t(x) > 1)", "[1, 2, 3].exists_one(x, t(x) > 0)", "[[1, 2, 3], [4]].map(l, l.exists_one(x, t(x) > 0))", "[1, 2, 3, 4].all(x, t(x) < 3)", "[1, 2, 3, 4].exists(x, t(x) > 1)",
+        "[1, 2, 3, 4].filter(x, t(x) > 1).map(y, t(y))", "[1, 2, 3, 4, 5].existsOne(x, t(x) % 2 == 1)", "[3, 3, 3, 3].exists_one(x, t(x) == 3) || t(0) == 0",
+    ] {
+        push(src.to_string(), None, usize::MAX, vec!["literal-containers-and-paths"], &mut out);
     }
     // receiver parameter in second position: both styles, every arity; the model decides
     for f in ["pt", "ptp"] {
